@@ -281,6 +281,53 @@ def r13_5(ctx, rep):
 
 # -- seeded variants ---------------------------------------------------------
 @SPEC.rule(
+    "R13.7",
+    "one block of rows per variable, one column per attribute, no gaps: in variable_metadata_function every iteration over the "
+    "attributes appends to the column list of that attribute (indexed by the enumerate counter), every iteration over a category's "
+    "variables runs the attribute loop, and every category appends its matrix to the result — a variable or attribute skipped "
+    "`because it has nothing interesting` shifts every later row against the row offsets load_model computes",
+)
+def r13_7(ctx, rep):
+    metadata_rows_total(ctx, rep, "R13.7")
+
+
+def metadata_rows_total(ctx, rep, R):
+    from ..cfg import CFG, iteration_skips
+    fn = _metadata_fn(ctx, R) if "_metadata_fn" in globals() else ctx.func(MODEL, "Model.variable_metadata_function", R)
+    site = MODEL + ":Model.variable_metadata_function"
+    cfg = CFG(fn, R)
+    loops = [lp for lp in walk_local(fn) if isinstance(lp, ast.For)]
+    attr_loops = [lp for lp in loops if "CASADI_ATTRIBUTES" in norm(lp.iter) and isinstance(lp.iter, ast.Call) and call_name(lp.iter) == "enumerate"]
+    if not attr_loops:
+        raise MechanismMissing(R, "loop over enumerate(CASADI_ATTRIBUTES) not found in variable_metadata_function")
+    al = attr_loops[0]
+    counter = al.target.elts[0].id if isinstance(al.target, ast.Tuple) and isinstance(al.target.elts[0], ast.Name) else None
+
+    def col_append(x):
+        return x.kind == "stmt" and any(isinstance(c.func, ast.Attribute) and c.func.attr == "append" and isinstance(c.func.value, ast.Subscript)
+                                        and is_name(c.func.value.slice, counter) for c in calls(x.ast))
+
+    w = iteration_skips(cfg, al, col_append)
+    rep.ob(R, site, "every attribute of every variable is appended to its own column", counter is not None and w is None,
+           "an iteration over the attributes can end without `<columns>[%s].append(...)`: the column is one row short and every later "
+           "variable's value of that attribute moves up" % counter, path=cfg.describe(w) if w else "")
+    var_loops = [lp for lp in loops if al in list(ast.walk(lp)) and lp is not al]
+    if len(var_loops) < 2:
+        raise MechanismMissing(R, "the loops over the categories and over a category's variables were not found around the attribute loop")
+    inner, outer = var_loops[-1], var_loops[0]
+    it_al = [x.id for x in cfg.nodes if x.kind == "iter" and x.ast is al]
+    w = iteration_skips(cfg, inner, lambda x: x.id in it_al)
+    rep.ob(R, site, "every variable of a category gets its rows", w is None,
+           "an iteration over the variables can end without entering the attribute loop: that variable has no rows, load_model's offsets "
+           "(advanced by every variable's element count) point into the next variable's rows", path=cfg.describe(w) if w else "")
+    w = iteration_skips(cfg, outer, lambda x: x.kind == "stmt" and any(isinstance(c.func, ast.Attribute) and c.func.attr == "append" and isinstance(c.func.value, ast.Name)
+                                                                          for c in calls(x.ast)) and not col_append(x))
+    rep.ob(R, site, "every category contributes its matrix", w is None,
+           "an iteration over the categories can end without appending the category's matrix: the result list no longer lines up with the "
+           "category names it is zipped with", path=cfg.describe(w) if w else "")
+
+
+@SPEC.rule(
     "R13.6",
     "attribute values are not recycled by their printed text: model.py holds no dict/set keyed by str(value) — two start values "
     "that print alike (1.0000001 and 1.0000002 both print as 1) would share the first one's node and the metadata row would "
@@ -376,6 +423,18 @@ def _m6(mod):
                             b[i] = ast.If(test=ast.parse("ca.OP_MUL in f_ops", mode="eval").body, body=[st],
                                           orelse=[ast.parse("zero_hessian = True").body[0]])
                             return True
+        return False
+
+    return mod if replace_in_func(mod, "Model.variable_metadata_function", edit) else None
+
+
+@SPEC.mutant("variables without symbolic attributes get no rows", MODEL, "R13.7", "gets its rows")
+def _m_skip_rows(mod):
+    def edit(fn):
+        for lp in ast.walk(fn):
+            if isinstance(lp, ast.For) and norm(lp.iter) == "variable_list":
+                lp.body.insert(0, ast.parse("if not any(isinstance(getattr(variable, a), ca.MX) for a in CASADI_ATTRIBUTES):\n    continue").body[0])
+                return True
         return False
 
     return mod if replace_in_func(mod, "Model.variable_metadata_function", edit) else None
